@@ -227,7 +227,7 @@ theorem weightOK_all (g : GF) : WeightOK P cfg g := by
       obtain ⟨_, hca, hcb⟩ := ht
       simp only [GF.update, Option.bind_eq_bind, Option.bind_eq_some_iff, Option.pure_def, Option.some.injEq,
           Prod.mk.injEq] at h
-      obtain ⟨⟨a', wa, da⟩, ha, ⟨b', wb, db⟩, hb, disc, _, rfl, rfl, _⟩ := h
+      obtain ⟨xq, _, ⟨a', wa, da⟩, ha, ⟨b', wb, db⟩, hb, disc, _, rfl, rfl, _⟩ := h
       have hsa : cfg.condSwitchCorrection = true ∨ Tr.sameChecks a a' := by
         rcases hs with hs | hs
         · exact Or.inl hs
